@@ -214,7 +214,7 @@ func RunCases(r *evid.Run, spec CheckSpec, cases []Case) {
 				r.Inconclusive("%d histories ran on the VRF beacon backend but the counter %s is zero", n, k)
 			}
 		}
-		if r.Counter("histories_with_vrf_and_runtime") >= 3 && r.Counter("vrf.committees_elected") == 0 {
+		if r.Counter("histories_with_vrf_and_runtime") >= 6 && r.Counter("vrf.committees_elected") == 0 {
 			r.Inconclusive("%d histories ran on the VRF beacon backend with a compute runtime but no committee was elected under VRF", r.Counter("histories_with_vrf_and_runtime"))
 		}
 	}
